@@ -287,6 +287,25 @@ Definition parse_stmt (msel : list (string * bytes)) (ts : list string) : option
           | O_b | O_bz | O_bnz | O_callsub =>
               match args with [l] => mk [IName l] | _ => None end
           | O_switch | O_match_ => mk (map IName args)
+          | O_frame_dig | O_frame_bury =>
+              (* signed int8 immediate, kept in two's complement (0..255) as Machine.frame_index expects *)
+              match args with
+              | [a] =>
+                  match list_ascii_of_string a with
+                  | m :: rest =>
+                      if Ascii.eqb m "-" then
+                        match N_of_dec (string_of_list_ascii rest) with
+                        | Some k => if (1 <=? k)%N && (k <=? 128)%N then mk [IInt (256 - k)%N] else None
+                        | None => None
+                        end
+                      else match N_of_dec a with
+                           | Some k => if (k <=? 127)%N then mk [IInt k] else None
+                           | None => None
+                           end
+                  | [] => None
+                  end
+              | _ => None
+              end
           | _ => mk (map generic_imm args)
           end
         end
